@@ -147,10 +147,11 @@ def cc_sat_func_card(instance: Instance, profile: AbstractProfile, ballot: Abstr
 Definition gen_cc_sat_func_card (v_instance : py_inst) (v_profile : py_profile) (v_ballot : py_ballot) (v_projects : (list py_proj)) : Q :=
   let v_res := 0 in
   (let v_res := fold_left (fun (v_res : Q) v_p => 
-    (if ((py_in_ballot v_ballot v_p) && (py_gt (py_ballot_getitem v_ballot v_p) v_res))
+    let v_res := (if ((py_in_ballot v_ballot v_p) && (py_gt (py_ballot_getitem v_ballot v_p) v_res))
   then let v_res := (py_ballot_getitem v_ballot v_p) in
   v_res
-  else v_res)) v_projects v_res in
+  else v_res) in
+  v_res) v_projects v_res in
   v_res).
 Global Hint Unfold gen_cc_sat_func_card : pygen.
 (* no ZeroDivisionError: every frac(a, b) on the executed path has b != 0 *)
@@ -349,18 +350,18 @@ Definition gen_gini_coefficient (v_values : (list Q)) : (option Q) :=
   (let '(ret1, v_all_nul, v_num_values) := fold_left (fun (st1 : ((option (option Q)) * bool * Q)%type) v_v => let '(ret1, v_all_nul, v_num_values) := st1 in 
     match ret1 with Some _ => st1 | None => (if (py_lt v_v 0)
   then ((Some (None)), v_all_nul, v_num_values)
-  else (if (v_all_nul && (py_gt v_v 0))
+  else let v_all_nul := (if (v_all_nul && (py_gt v_v 0))
   then let v_all_nul := false in
+  v_all_nul
+  else v_all_nul) in
   let v_num_values := (v_num_values + 1) in
-  (ret1, v_all_nul, v_num_values)
-  else let v_num_values := (v_num_values + 1) in
-  (ret1, v_all_nul, v_num_values))) end) v_values ((@None (option Q)), v_all_nul, v_num_values) in
+  (ret1, v_all_nul, v_num_values)) end) v_values ((@None (option Q)), v_all_nul, v_num_values) in
   match ret1 with Some r1 => r1 | None => (if v_all_nul
   then (Some 0)
   else let v_sorted_values := (py_sorted_nums v_values) in
   let v_total_cum_sum := 0 in
-  (let v_total_cum_sum := fold_left (fun (v_total_cum_sum : Q) it2 => let '(v_i, v_v) := it2 in 
-    let v_total_cum_sum := (v_total_cum_sum + (v_v * (v_num_values - v_i))) in
+  (let v_total_cum_sum := fold_left (fun (v_total_cum_sum : Q) it2 => 
+    let v_total_cum_sum := (v_total_cum_sum + ((snd it2) * (v_num_values - (fst it2)))) in
   v_total_cum_sum) (py_enumerate v_sorted_values) v_total_cum_sum in
   (Some (frac ((v_num_values + 1) - (frac (2 * v_total_cum_sum) (py_sum v_values))) v_num_values)))) end).
 Global Hint Unfold gen_gini_coefficient : pygen.
@@ -371,18 +372,18 @@ Definition gen_gini_coefficient_safe (v_values : (list Q)) : bool :=
   (let '(ret1, v_all_nul, v_num_values) := fold_left (fun (st1 : ((option bool) * bool * Q)%type) v_v => let '(ret1, v_all_nul, v_num_values) := st1 in 
     match ret1 with Some _ => st1 | None => (if (py_lt v_v 0)
   then ((Some (true)), v_all_nul, v_num_values)
-  else (if (v_all_nul && (py_gt v_v 0))
+  else let v_all_nul := (if (v_all_nul && (py_gt v_v 0))
   then let v_all_nul := false in
+  v_all_nul
+  else v_all_nul) in
   let v_num_values := (v_num_values + 1) in
-  (ret1, v_all_nul, v_num_values)
-  else let v_num_values := (v_num_values + 1) in
-  (ret1, v_all_nul, v_num_values))) end) v_values ((@None bool), v_all_nul, v_num_values) in
+  (ret1, v_all_nul, v_num_values)) end) v_values ((@None bool), v_all_nul, v_num_values) in
   match ret1 with Some r1 => r1 | None => (if v_all_nul
   then true
   else let v_sorted_values := (py_sorted_nums v_values) in
   let v_total_cum_sum := 0 in
-  (let v_total_cum_sum := fold_left (fun (v_total_cum_sum : Q) it3 => let '(v_i, v_v) := it3 in 
-    let v_total_cum_sum := (v_total_cum_sum + (v_v * (v_num_values - v_i))) in
+  (let v_total_cum_sum := fold_left (fun (v_total_cum_sum : Q) it3 => 
+    let v_total_cum_sum := (v_total_cum_sum + ((snd it3) * (v_num_values - (fst it3)))) in
   v_total_cum_sum) (py_enumerate v_sorted_values) v_total_cum_sum in
   (py_truth (py_sum v_values)) && (py_truth v_num_values))) end).
 Global Hint Unfold gen_gini_coefficient_safe : pygen.
@@ -423,10 +424,11 @@ Definition gen_percent_positive_satisfaction (cinst : py_inst) (v_profile : py_p
   let v_sat_profile := (py_as_sat_profile cinst v_profile v_sat_class) in
   let v_num_pos_sat := 0 in
   (let v_num_pos_sat := fold_left (fun (v_num_pos_sat : Q) v_sat => 
-    (if (py_gt (fst v_sat v_budget_allocation) 0)
+    let v_num_pos_sat := (if (py_gt (fst v_sat v_budget_allocation) 0)
   then let v_num_pos_sat := (v_num_pos_sat + (py_satprofile_multiplicity v_sat_profile v_sat)) in
   v_num_pos_sat
-  else v_num_pos_sat)) (py_satprofile_iter v_sat_profile) v_num_pos_sat in
+  else v_num_pos_sat) in
+  v_num_pos_sat) (py_satprofile_iter v_sat_profile) v_num_pos_sat in
   (frac v_num_pos_sat (py_num_ballots v_profile))).
 Global Hint Unfold gen_percent_positive_satisfaction : pygen.
 (* no ZeroDivisionError: every frac(a, b) on the executed path has b != 0 *)
@@ -434,10 +436,11 @@ Definition gen_percent_positive_satisfaction_safe (cinst : py_inst) (v_profile :
   let v_sat_profile := (py_as_sat_profile cinst v_profile v_sat_class) in
   let v_num_pos_sat := 0 in
   (let v_num_pos_sat := fold_left (fun (v_num_pos_sat : Q) v_sat => 
-    (if (py_gt (fst v_sat v_budget_allocation) 0)
+    let v_num_pos_sat := (if (py_gt (fst v_sat v_budget_allocation) 0)
   then let v_num_pos_sat := (v_num_pos_sat + (py_satprofile_multiplicity v_sat_profile v_sat)) in
   v_num_pos_sat
-  else v_num_pos_sat)) (py_satprofile_iter v_sat_profile) v_num_pos_sat in
+  else v_num_pos_sat) in
+  v_num_pos_sat) (py_satprofile_iter v_sat_profile) v_num_pos_sat in
   (py_truth (py_num_ballots v_profile))).
 Global Hint Unfold gen_percent_positive_satisfaction_safe : pygen.
 
@@ -649,6 +652,1116 @@ Global Hint Unfold gen_median_project_cost_safe : pygen.
 def std_dev_project_cost(instance: Instance) -> Numeric:
     return float(np.std([project.cost for project in instance], dtype=np.float64)) *)
 Definition gen_std_dev_project_cost : py_untranslated := Untranslated "unknown name np".
+
+(* pabutools/utils.py:106 round_cmp
+def round_cmp(a: Numeric, b: Numeric, precision: int=6) -> int:
+    return round(a, precision) - round(b, precision) *)
+Definition gen_round_cmp (v_a : Q) (v_b : Q) (v_precision : Q) : Q :=
+  ((py_round v_a v_precision) - (py_round v_b v_precision)).
+Global Hint Unfold gen_round_cmp : pygen.
+(* no ZeroDivisionError: every frac(a, b) on the executed path has b != 0 *)
+Definition gen_round_cmp_safe (v_a : Q) (v_b : Q) (v_precision : Q) : bool :=
+  true.
+Global Hint Unfold gen_round_cmp_safe : pygen.
+
+(* pabutools/analysis/priceability.py:25 validate_price_system
+def validate_price_system(instance: Instance, profile: AbstractApprovalProfile, budget_allocation: Collection[Project], voter_budget: Numeric, payment_functions: list[dict[Project, Numeric]], stable: bool=False, exhaustive: bool=True, relaxation: Relaxation | None=None, *, verbose: bool=False) -> bool:
+    C = instance
+    N = profile
+    W = budget_allocation
+    NW = [c for c in C if c not in W]
+    b = voter_budget
+    pf = payment_functions
+    total = total_cost(W)
+    spent = [sum((pf[idx][c] for c in C)) for idx, _ in enumerate(N)]
+    leftover = [b - spent[idx] for idx, _ in enumerate(N)]
+    max_payment = [max((pf[idx][c] for c in C), default=0) for idx, _ in enumerate(N)]
+    errors = collections.defaultdict(list)
+    if total > instance.budget_limit:
+        errors['C0a'].append(f'total price for allocation is equal {total} > {instance.budget_limit}')
+    if exhaustive:
+        for c in NW:
+            if total + c.cost <= instance.budget_limit:
+                errors['C0b'].append(f'allocation is not exhaustive {total} + {c.cost} = {total + c.cost} <= {instance.budget_limit}')
+    for idx, i in enumerate(N):
+        for c in C:
+            if c not in i and pf[idx][c] != 0:
+                errors['C1'].append(f'voter {idx} paid {pf[idx][c]} for unapproved project {c}')
+            if round_cmp(pf[idx][c], 0, CHECK_ROUND_PRECISION) < 0:
+                errors['C1'].append(f'voter {idx} paid a negative amount {pf[idx][c]} for project {c}')
+    for idx, _ in enumerate(N):
+        if round_cmp(spent[idx], b, CHECK_ROUND_PRECISION) > 0:
+            errors['C2'].append(f'payments of voter {idx} are equal {spent[idx]} > {b}')
+    for c in W:
+        s = sum((pf[idx][c] for idx, _ in enumerate(N)))
+        if round_cmp(s, c.cost, CHECK_ROUND_PRECISION) != 0:
+            errors['C3'].append(f'payments for selected project {c} are equal {s} != {c.cost}')
+    for c in NW:
+        s = sum((pf[idx][c] for idx, _ in enumerate(N)))
+        if round_cmp(s, 0, CHECK_ROUND_PRECISION) != 0:
+            errors['C4'].append(f'payments for not selected project {c} are equal {s} != 0')
+    if not stable:
+        for c in NW:
+            s = sum((leftover[idx] for idx, i in enumerate(N) if c in i))
+            if round_cmp(s, c.cost, CHECK_ROUND_PRECISION) > 0:
+                errors['C5'].append(f'voters' leftover money for not selected project {c} are equal {s} > {c.cost}')
+    else:
+        for c in NW:
+            s = sum((max(max_payment[idx], leftover[idx]) for idx, i in enumerate(N) if c in i))
+            cost = c.cost if relaxation is None else relaxation.get_relaxed_cost(c)
+            if round_cmp(s, cost, CHECK_ROUND_PRECISION) > 0:
+                errors['S5'].append(f'voters' leftover money (or the most they've spent for a project) for not selected project {c} are equal {s} > {cost}')
+    if verbose:
+        for condition, error in errors.items():
+            print(f'({condition}) {error}')
+    return not errors *)
+Definition gen_validate_price_system (v_instance : py_inst) (v_profile : (list (list py_proj))) (v_budget_allocation : (list py_proj)) (v_voter_budget : Q) (v_payment_functions : py_payments) (v_stable : bool) (v_exhaustive : bool) : bool :=
+  let v_C := v_instance in
+  let v_N := v_profile in
+  let v_W := v_budget_allocation in
+  let v_NW := (filter (fun v_c => (negb (py_in_list v_W v_c))) (py_instance_iter v_C)) in
+  let v_b := v_voter_budget in
+  let v_pf := v_payment_functions in
+  let v_total := (py_total_cost v_instance v_W) in
+  let v_spent := (map (fun v_pr1 => (py_sum (map (fun v_c => (py_row_get (py_pay_row v_pf (fst v_pr1)) v_c)) (py_instance_iter v_C)))) (py_enumerate v_N)) in
+  let v_leftover := (map (fun v_pr2 => (v_b - (py_list_get v_spent (fst v_pr2)))) (py_enumerate v_N)) in
+  let v_max_payment := (map (fun v_pr3 => (py_max_list (map (fun v_c => (py_row_get (py_pay_row v_pf (fst v_pr3)) v_c)) (py_instance_iter v_C)) 0)) (py_enumerate v_N)) in
+  let v_errors := false in
+  let v_errors := (if (py_gt v_total (py_budget_limit v_instance))
+  then let v_errors := true in
+  v_errors
+  else v_errors) in
+  (if v_exhaustive
+  then (let v_errors := fold_left (fun (v_errors : bool) v_c => 
+    let v_errors := (if (py_le (v_total + (py_cost v_instance v_c)) (py_budget_limit v_instance))
+  then let v_errors := true in
+  v_errors
+  else v_errors) in
+  v_errors) v_NW v_errors in
+  (let v_errors := fold_left (fun (v_errors : bool) it5 => 
+    (let v_errors := fold_left (fun (v_errors : bool) v_c => 
+    let v_errors := (if ((negb (py_in_list (snd it5) v_c)) && (py_ne (py_row_get (py_pay_row v_pf (fst it5)) v_c) 0))
+  then let v_errors := true in
+  v_errors
+  else v_errors) in
+  let v_errors := (if (py_lt (gen_round_cmp (py_row_get (py_pay_row v_pf (fst it5)) v_c) 0 2) 0)
+  then let v_errors := true in
+  v_errors
+  else v_errors) in
+  v_errors) (py_instance_iter v_C) v_errors in
+  v_errors)) (py_enumerate v_N) v_errors in
+  (let v_errors := fold_left (fun (v_errors : bool) it7 => 
+    let v_errors := (if (py_gt (gen_round_cmp (py_list_get v_spent (fst it7)) v_b 2) 0)
+  then let v_errors := true in
+  v_errors
+  else v_errors) in
+  v_errors) (py_enumerate v_N) v_errors in
+  (let v_errors := fold_left (fun (v_errors : bool) v_c => 
+    let v_s := (py_sum (map (fun v_pr9 => (py_row_get (py_pay_row v_pf (fst v_pr9)) v_c)) (py_enumerate v_N))) in
+  let v_errors := (if (py_ne (gen_round_cmp v_s (py_cost v_instance v_c) 2) 0)
+  then let v_errors := true in
+  v_errors
+  else v_errors) in
+  v_errors) v_W v_errors in
+  (let v_errors := fold_left (fun (v_errors : bool) v_c => 
+    let v_s := (py_sum (map (fun v_pr11 => (py_row_get (py_pay_row v_pf (fst v_pr11)) v_c)) (py_enumerate v_N))) in
+  let v_errors := (if (py_ne (gen_round_cmp v_s 0 2) 0)
+  then let v_errors := true in
+  v_errors
+  else v_errors) in
+  v_errors) v_NW v_errors in
+  (if (negb v_stable)
+  then (let v_errors := fold_left (fun (v_errors : bool) v_c => 
+    let v_s := (py_sum (map (fun v_pr13 => (py_list_get v_leftover (fst v_pr13))) (filter (fun v_pr13 => (py_in_list (snd v_pr13) v_c)) (py_enumerate v_N)))) in
+  let v_errors := (if (py_gt (gen_round_cmp v_s (py_cost v_instance v_c) 2) 0)
+  then let v_errors := true in
+  v_errors
+  else v_errors) in
+  v_errors) v_NW v_errors in
+  (negb v_errors))
+  else (let v_errors := fold_left (fun (v_errors : bool) v_c => 
+    let v_s := (py_sum (map (fun v_pr15 => (py_max2 (py_list_get v_max_payment (fst v_pr15)) (py_list_get v_leftover (fst v_pr15)))) (filter (fun v_pr15 => (py_in_list (snd v_pr15) v_c)) (py_enumerate v_N)))) in
+  let v_cost := (py_cost v_instance v_c) in
+  let v_errors := (if (py_gt (gen_round_cmp v_s v_cost 2) 0)
+  then let v_errors := true in
+  v_errors
+  else v_errors) in
+  v_errors) v_NW v_errors in
+  (negb v_errors))))))))
+  else (let v_errors := fold_left (fun (v_errors : bool) it16 => 
+    (let v_errors := fold_left (fun (v_errors : bool) v_c => 
+    let v_errors := (if ((negb (py_in_list (snd it16) v_c)) && (py_ne (py_row_get (py_pay_row v_pf (fst it16)) v_c) 0))
+  then let v_errors := true in
+  v_errors
+  else v_errors) in
+  let v_errors := (if (py_lt (gen_round_cmp (py_row_get (py_pay_row v_pf (fst it16)) v_c) 0 2) 0)
+  then let v_errors := true in
+  v_errors
+  else v_errors) in
+  v_errors) (py_instance_iter v_C) v_errors in
+  v_errors)) (py_enumerate v_N) v_errors in
+  (let v_errors := fold_left (fun (v_errors : bool) it18 => 
+    let v_errors := (if (py_gt (gen_round_cmp (py_list_get v_spent (fst it18)) v_b 2) 0)
+  then let v_errors := true in
+  v_errors
+  else v_errors) in
+  v_errors) (py_enumerate v_N) v_errors in
+  (let v_errors := fold_left (fun (v_errors : bool) v_c => 
+    let v_s := (py_sum (map (fun v_pr20 => (py_row_get (py_pay_row v_pf (fst v_pr20)) v_c)) (py_enumerate v_N))) in
+  let v_errors := (if (py_ne (gen_round_cmp v_s (py_cost v_instance v_c) 2) 0)
+  then let v_errors := true in
+  v_errors
+  else v_errors) in
+  v_errors) v_W v_errors in
+  (let v_errors := fold_left (fun (v_errors : bool) v_c => 
+    let v_s := (py_sum (map (fun v_pr22 => (py_row_get (py_pay_row v_pf (fst v_pr22)) v_c)) (py_enumerate v_N))) in
+  let v_errors := (if (py_ne (gen_round_cmp v_s 0 2) 0)
+  then let v_errors := true in
+  v_errors
+  else v_errors) in
+  v_errors) v_NW v_errors in
+  (if (negb v_stable)
+  then (let v_errors := fold_left (fun (v_errors : bool) v_c => 
+    let v_s := (py_sum (map (fun v_pr24 => (py_list_get v_leftover (fst v_pr24))) (filter (fun v_pr24 => (py_in_list (snd v_pr24) v_c)) (py_enumerate v_N)))) in
+  let v_errors := (if (py_gt (gen_round_cmp v_s (py_cost v_instance v_c) 2) 0)
+  then let v_errors := true in
+  v_errors
+  else v_errors) in
+  v_errors) v_NW v_errors in
+  (negb v_errors))
+  else (let v_errors := fold_left (fun (v_errors : bool) v_c => 
+    let v_s := (py_sum (map (fun v_pr26 => (py_max2 (py_list_get v_max_payment (fst v_pr26)) (py_list_get v_leftover (fst v_pr26)))) (filter (fun v_pr26 => (py_in_list (snd v_pr26) v_c)) (py_enumerate v_N)))) in
+  let v_cost := (py_cost v_instance v_c) in
+  let v_errors := (if (py_gt (gen_round_cmp v_s v_cost 2) 0)
+  then let v_errors := true in
+  v_errors
+  else v_errors) in
+  v_errors) v_NW v_errors in
+  (negb v_errors)))))))).
+Global Hint Unfold gen_validate_price_system : pygen.
+(* no ZeroDivisionError: every frac(a, b) on the executed path has b != 0 *)
+Definition gen_validate_price_system_safe (v_instance : py_inst) (v_profile : (list (list py_proj))) (v_budget_allocation : (list py_proj)) (v_voter_budget : Q) (v_payment_functions : py_payments) (v_stable : bool) (v_exhaustive : bool) : bool :=
+  true.
+Global Hint Unfold gen_validate_price_system_safe : pygen.
+
+(* pabutools/analysis/priceability.py:25 validate_price_system
+def validate_price_system(instance: Instance, profile: AbstractApprovalProfile, budget_allocation: Collection[Project], voter_budget: Numeric, payment_functions: list[dict[Project, Numeric]], stable: bool=False, exhaustive: bool=True, relaxation: Relaxation | None=None, *, verbose: bool=False) -> bool:
+    C = instance
+    N = profile
+    W = budget_allocation
+    NW = [c for c in C if c not in W]
+    b = voter_budget
+    pf = payment_functions
+    total = total_cost(W)
+    spent = [sum((pf[idx][c] for c in C)) for idx, _ in enumerate(N)]
+    leftover = [b - spent[idx] for idx, _ in enumerate(N)]
+    max_payment = [max((pf[idx][c] for c in C), default=0) for idx, _ in enumerate(N)]
+    errors = collections.defaultdict(list)
+    if total > instance.budget_limit:
+        errors['C0a'].append(f'total price for allocation is equal {total} > {instance.budget_limit}')
+    if exhaustive:
+        for c in NW:
+            if total + c.cost <= instance.budget_limit:
+                errors['C0b'].append(f'allocation is not exhaustive {total} + {c.cost} = {total + c.cost} <= {instance.budget_limit}')
+    for idx, i in enumerate(N):
+        for c in C:
+            if c not in i and pf[idx][c] != 0:
+                errors['C1'].append(f'voter {idx} paid {pf[idx][c]} for unapproved project {c}')
+            if round_cmp(pf[idx][c], 0, CHECK_ROUND_PRECISION) < 0:
+                errors['C1'].append(f'voter {idx} paid a negative amount {pf[idx][c]} for project {c}')
+    for idx, _ in enumerate(N):
+        if round_cmp(spent[idx], b, CHECK_ROUND_PRECISION) > 0:
+            errors['C2'].append(f'payments of voter {idx} are equal {spent[idx]} > {b}')
+    for c in W:
+        s = sum((pf[idx][c] for idx, _ in enumerate(N)))
+        if round_cmp(s, c.cost, CHECK_ROUND_PRECISION) != 0:
+            errors['C3'].append(f'payments for selected project {c} are equal {s} != {c.cost}')
+    for c in NW:
+        s = sum((pf[idx][c] for idx, _ in enumerate(N)))
+        if round_cmp(s, 0, CHECK_ROUND_PRECISION) != 0:
+            errors['C4'].append(f'payments for not selected project {c} are equal {s} != 0')
+    if not stable:
+        for c in NW:
+            s = sum((leftover[idx] for idx, i in enumerate(N) if c in i))
+            if round_cmp(s, c.cost, CHECK_ROUND_PRECISION) > 0:
+                errors['C5'].append(f'voters' leftover money for not selected project {c} are equal {s} > {c.cost}')
+    else:
+        for c in NW:
+            s = sum((max(max_payment[idx], leftover[idx]) for idx, i in enumerate(N) if c in i))
+            cost = c.cost if relaxation is None else relaxation.get_relaxed_cost(c)
+            if round_cmp(s, cost, CHECK_ROUND_PRECISION) > 0:
+                errors['S5'].append(f'voters' leftover money (or the most they've spent for a project) for not selected project {c} are equal {s} > {cost}')
+    if verbose:
+        for condition, error in errors.items():
+            print(f'({condition}) {error}')
+    return not errors *)
+Definition gen_validate_price_system_relax (v_instance : py_inst) (v_profile : (list (list py_proj))) (v_budget_allocation : (list py_proj)) (v_voter_budget : Q) (v_payment_functions : py_payments) (v_stable : bool) (v_exhaustive : bool) (v_relaxation : py_relax) : bool :=
+  let v_C := v_instance in
+  let v_N := v_profile in
+  let v_W := v_budget_allocation in
+  let v_NW := (filter (fun v_c => (negb (py_in_list v_W v_c))) (py_instance_iter v_C)) in
+  let v_b := v_voter_budget in
+  let v_pf := v_payment_functions in
+  let v_total := (py_total_cost v_instance v_W) in
+  let v_spent := (map (fun v_pr1 => (py_sum (map (fun v_c => (py_row_get (py_pay_row v_pf (fst v_pr1)) v_c)) (py_instance_iter v_C)))) (py_enumerate v_N)) in
+  let v_leftover := (map (fun v_pr2 => (v_b - (py_list_get v_spent (fst v_pr2)))) (py_enumerate v_N)) in
+  let v_max_payment := (map (fun v_pr3 => (py_max_list (map (fun v_c => (py_row_get (py_pay_row v_pf (fst v_pr3)) v_c)) (py_instance_iter v_C)) 0)) (py_enumerate v_N)) in
+  let v_errors := false in
+  let v_errors := (if (py_gt v_total (py_budget_limit v_instance))
+  then let v_errors := true in
+  v_errors
+  else v_errors) in
+  (if v_exhaustive
+  then (let v_errors := fold_left (fun (v_errors : bool) v_c => 
+    let v_errors := (if (py_le (v_total + (py_cost v_instance v_c)) (py_budget_limit v_instance))
+  then let v_errors := true in
+  v_errors
+  else v_errors) in
+  v_errors) v_NW v_errors in
+  (let v_errors := fold_left (fun (v_errors : bool) it5 => 
+    (let v_errors := fold_left (fun (v_errors : bool) v_c => 
+    let v_errors := (if ((negb (py_in_list (snd it5) v_c)) && (py_ne (py_row_get (py_pay_row v_pf (fst it5)) v_c) 0))
+  then let v_errors := true in
+  v_errors
+  else v_errors) in
+  let v_errors := (if (py_lt (gen_round_cmp (py_row_get (py_pay_row v_pf (fst it5)) v_c) 0 2) 0)
+  then let v_errors := true in
+  v_errors
+  else v_errors) in
+  v_errors) (py_instance_iter v_C) v_errors in
+  v_errors)) (py_enumerate v_N) v_errors in
+  (let v_errors := fold_left (fun (v_errors : bool) it7 => 
+    let v_errors := (if (py_gt (gen_round_cmp (py_list_get v_spent (fst it7)) v_b 2) 0)
+  then let v_errors := true in
+  v_errors
+  else v_errors) in
+  v_errors) (py_enumerate v_N) v_errors in
+  (let v_errors := fold_left (fun (v_errors : bool) v_c => 
+    let v_s := (py_sum (map (fun v_pr9 => (py_row_get (py_pay_row v_pf (fst v_pr9)) v_c)) (py_enumerate v_N))) in
+  let v_errors := (if (py_ne (gen_round_cmp v_s (py_cost v_instance v_c) 2) 0)
+  then let v_errors := true in
+  v_errors
+  else v_errors) in
+  v_errors) v_W v_errors in
+  (let v_errors := fold_left (fun (v_errors : bool) v_c => 
+    let v_s := (py_sum (map (fun v_pr11 => (py_row_get (py_pay_row v_pf (fst v_pr11)) v_c)) (py_enumerate v_N))) in
+  let v_errors := (if (py_ne (gen_round_cmp v_s 0 2) 0)
+  then let v_errors := true in
+  v_errors
+  else v_errors) in
+  v_errors) v_NW v_errors in
+  (if (negb v_stable)
+  then (let v_errors := fold_left (fun (v_errors : bool) v_c => 
+    let v_s := (py_sum (map (fun v_pr13 => (py_list_get v_leftover (fst v_pr13))) (filter (fun v_pr13 => (py_in_list (snd v_pr13) v_c)) (py_enumerate v_N)))) in
+  let v_errors := (if (py_gt (gen_round_cmp v_s (py_cost v_instance v_c) 2) 0)
+  then let v_errors := true in
+  v_errors
+  else v_errors) in
+  v_errors) v_NW v_errors in
+  (negb v_errors))
+  else (let v_errors := fold_left (fun (v_errors : bool) v_c => 
+    let v_s := (py_sum (map (fun v_pr15 => (py_max2 (py_list_get v_max_payment (fst v_pr15)) (py_list_get v_leftover (fst v_pr15)))) (filter (fun v_pr15 => (py_in_list (snd v_pr15) v_c)) (py_enumerate v_N)))) in
+  let v_cost := (py_relaxed_cost v_instance v_relaxation v_c) in
+  let v_errors := (if (py_gt (gen_round_cmp v_s v_cost 2) 0)
+  then let v_errors := true in
+  v_errors
+  else v_errors) in
+  v_errors) v_NW v_errors in
+  (negb v_errors))))))))
+  else (let v_errors := fold_left (fun (v_errors : bool) it16 => 
+    (let v_errors := fold_left (fun (v_errors : bool) v_c => 
+    let v_errors := (if ((negb (py_in_list (snd it16) v_c)) && (py_ne (py_row_get (py_pay_row v_pf (fst it16)) v_c) 0))
+  then let v_errors := true in
+  v_errors
+  else v_errors) in
+  let v_errors := (if (py_lt (gen_round_cmp (py_row_get (py_pay_row v_pf (fst it16)) v_c) 0 2) 0)
+  then let v_errors := true in
+  v_errors
+  else v_errors) in
+  v_errors) (py_instance_iter v_C) v_errors in
+  v_errors)) (py_enumerate v_N) v_errors in
+  (let v_errors := fold_left (fun (v_errors : bool) it18 => 
+    let v_errors := (if (py_gt (gen_round_cmp (py_list_get v_spent (fst it18)) v_b 2) 0)
+  then let v_errors := true in
+  v_errors
+  else v_errors) in
+  v_errors) (py_enumerate v_N) v_errors in
+  (let v_errors := fold_left (fun (v_errors : bool) v_c => 
+    let v_s := (py_sum (map (fun v_pr20 => (py_row_get (py_pay_row v_pf (fst v_pr20)) v_c)) (py_enumerate v_N))) in
+  let v_errors := (if (py_ne (gen_round_cmp v_s (py_cost v_instance v_c) 2) 0)
+  then let v_errors := true in
+  v_errors
+  else v_errors) in
+  v_errors) v_W v_errors in
+  (let v_errors := fold_left (fun (v_errors : bool) v_c => 
+    let v_s := (py_sum (map (fun v_pr22 => (py_row_get (py_pay_row v_pf (fst v_pr22)) v_c)) (py_enumerate v_N))) in
+  let v_errors := (if (py_ne (gen_round_cmp v_s 0 2) 0)
+  then let v_errors := true in
+  v_errors
+  else v_errors) in
+  v_errors) v_NW v_errors in
+  (if (negb v_stable)
+  then (let v_errors := fold_left (fun (v_errors : bool) v_c => 
+    let v_s := (py_sum (map (fun v_pr24 => (py_list_get v_leftover (fst v_pr24))) (filter (fun v_pr24 => (py_in_list (snd v_pr24) v_c)) (py_enumerate v_N)))) in
+  let v_errors := (if (py_gt (gen_round_cmp v_s (py_cost v_instance v_c) 2) 0)
+  then let v_errors := true in
+  v_errors
+  else v_errors) in
+  v_errors) v_NW v_errors in
+  (negb v_errors))
+  else (let v_errors := fold_left (fun (v_errors : bool) v_c => 
+    let v_s := (py_sum (map (fun v_pr26 => (py_max2 (py_list_get v_max_payment (fst v_pr26)) (py_list_get v_leftover (fst v_pr26)))) (filter (fun v_pr26 => (py_in_list (snd v_pr26) v_c)) (py_enumerate v_N)))) in
+  let v_cost := (py_relaxed_cost v_instance v_relaxation v_c) in
+  let v_errors := (if (py_gt (gen_round_cmp v_s v_cost 2) 0)
+  then let v_errors := true in
+  v_errors
+  else v_errors) in
+  v_errors) v_NW v_errors in
+  (negb v_errors)))))))).
+Global Hint Unfold gen_validate_price_system_relax : pygen.
+(* no ZeroDivisionError: every frac(a, b) on the executed path has b != 0 *)
+Definition gen_validate_price_system_relax_safe (v_instance : py_inst) (v_profile : (list (list py_proj))) (v_budget_allocation : (list py_proj)) (v_voter_budget : Q) (v_payment_functions : py_payments) (v_stable : bool) (v_exhaustive : bool) (v_relaxation : py_relax) : bool :=
+  true.
+Global Hint Unfold gen_validate_price_system_relax_safe : pygen.
+
+(* pabutools/utils.py:54 powerset
+def powerset(iterable: Iterable) -> Generator:
+    s = list(iterable)
+    return chain.from_iterable((combinations(s, r) for r in range(len(s) + 1))) *)
+Definition gen_powerset_ballots (v_iterable : (list py_ballot)) : (list (list py_ballot)) :=
+  let v_s := v_iterable in
+  (py_chain (map (fun v_r => (py_combinations v_s v_r)) (py_range ((py_len v_s) + 1)))).
+Global Hint Unfold gen_powerset_ballots : pygen.
+(* no ZeroDivisionError: every frac(a, b) on the executed path has b != 0 *)
+Definition gen_powerset_ballots_safe (v_iterable : (list py_ballot)) : bool :=
+  true.
+Global Hint Unfold gen_powerset_ballots_safe : pygen.
+
+(* pabutools/analysis/cohesiveness.py:20 is_large_enough
+def is_large_enough(group_size: int, num_voters: int, projects_cost: Numeric, budget_limit: Numeric) -> bool:
+    return projects_cost * num_voters <= group_size * budget_limit *)
+Definition gen_is_large_enough (v_group_size : Q) (v_num_voters : Q) (v_projects_cost : Q) (v_budget_limit : Q) : bool :=
+  (py_le (v_projects_cost * v_num_voters) (v_group_size * v_budget_limit)).
+Global Hint Unfold gen_is_large_enough : pygen.
+(* no ZeroDivisionError: every frac(a, b) on the executed path has b != 0 *)
+Definition gen_is_large_enough_safe (v_group_size : Q) (v_num_voters : Q) (v_projects_cost : Q) (v_budget_limit : Q) : bool :=
+  true.
+Global Hint Unfold gen_is_large_enough_safe : pygen.
+
+(* pabutools/analysis/cohesiveness.py:26 is_cohesive_approval
+def is_cohesive_approval(instance: Instance, profile: AbstractApprovalProfile, projects: Collection[Project], ballots: Collection[AbstractApprovalBallot]) -> bool:
+    if not is_large_enough(sum((profile.multiplicity(b) for b in ballots)), profile.num_ballots(), total_cost(projects), instance.budget_limit):
+        return False
+    if len(ballots) == 0 or len(projects) == 0:
+        return False
+    for ballot in ballots:
+        for p in projects:
+            if p not in ballot:
+                return False
+    return True *)
+Definition gen_is_cohesive_approval (v_instance : py_inst) (v_profile : (list py_ballot)) (v_projects : (list py_proj)) (v_ballots : (list py_ballot)) : bool :=
+  (if (negb (gen_is_large_enough (py_sum (map (fun v_b => 1) v_ballots)) (py_len v_profile) (py_total_cost v_instance v_projects) (py_budget_limit v_instance)))
+  then false
+  else (if ((py_eq (py_len v_ballots) 0) || (py_eq (py_len v_projects) 0))
+  then false
+  else (let ret1 := fold_left (fun (ret1 : (option bool)) v_ballot => 
+    match ret1 with Some _ => ret1 | None => (let ret2 := fold_left (fun (ret2 : (option (option bool))) v_p => 
+    match ret2 with Some _ => ret2 | None => (if (negb (py_in_ballot v_ballot v_p))
+  then (Some ((Some (false))))
+  else ret2) end) v_projects (@None (option bool)) in
+  match ret2 with Some r2 => r2 | None => ret1 end) end) v_ballots (@None bool) in
+  match ret1 with Some r1 => r1 | None => true end))).
+Global Hint Unfold gen_is_cohesive_approval : pygen.
+(* no ZeroDivisionError: every frac(a, b) on the executed path has b != 0 *)
+Definition gen_is_cohesive_approval_safe (v_instance : py_inst) (v_profile : (list py_ballot)) (v_projects : (list py_proj)) (v_ballots : (list py_ballot)) : bool :=
+  true.
+Global Hint Unfold gen_is_cohesive_approval_safe : pygen.
+
+(* pabutools/analysis/cohesiveness.py:48 is_cohesive_cardinal
+def is_cohesive_cardinal(instance: Instance, profile: AbstractCardinalProfile, projects: Collection[Project], ballots: Collection[AbstractCardinalBallot], alpha: dict[Project, Numeric]) -> bool:
+    if not is_large_enough(sum((profile.multiplicity(b) for b in ballots)), profile.num_ballots(), total_cost(projects), instance.budget_limit):
+        return False
+    if len(ballots) == 0 or len(projects) == 0:
+        return False
+    for ballot in ballots:
+        for p in projects:
+            if ballot[p] < alpha[p]:
+                return False
+    return True *)
+Definition gen_is_cohesive_cardinal (v_instance : py_inst) (v_profile : (list py_ballot)) (v_projects : (list py_proj)) (v_ballots : (list py_ballot)) (v_alpha : (py_proj -> Q)) : bool :=
+  (if (negb (gen_is_large_enough (py_sum (map (fun v_b => 1) v_ballots)) (py_len v_profile) (py_total_cost v_instance v_projects) (py_budget_limit v_instance)))
+  then false
+  else (if ((py_eq (py_len v_ballots) 0) || (py_eq (py_len v_projects) 0))
+  then false
+  else (let ret1 := fold_left (fun (ret1 : (option bool)) v_ballot => 
+    match ret1 with Some _ => ret1 | None => (let ret2 := fold_left (fun (ret2 : (option (option bool))) v_p => 
+    match ret2 with Some _ => ret2 | None => (if (py_lt (py_ballot_getitem v_ballot v_p) (v_alpha v_p))
+  then (Some ((Some (false))))
+  else ret2) end) v_projects (@None (option bool)) in
+  match ret2 with Some r2 => r2 | None => ret1 end) end) v_ballots (@None bool) in
+  match ret1 with Some r1 => r1 | None => true end))).
+Global Hint Unfold gen_is_cohesive_cardinal : pygen.
+(* no ZeroDivisionError: every frac(a, b) on the executed path has b != 0 *)
+Definition gen_is_cohesive_cardinal_safe (v_instance : py_inst) (v_profile : (list py_ballot)) (v_projects : (list py_proj)) (v_ballots : (list py_ballot)) (v_alpha : (py_proj -> Q)) : bool :=
+  true.
+Global Hint Unfold gen_is_cohesive_cardinal_safe : pygen.
+
+(* pabutools/analysis/cohesiveness.py:71 cohesive_groups
+def cohesive_groups(instance: Instance, profile: AbstractProfile, projects=None):
+    if projects is None:
+        projects = instance
+    res = []
+    for group in powerset(profile):
+        if len(group) > 0:
+            for project_set in powerset(projects):
+                if len(project_set) > 0:
+                    if isinstance(profile, AbstractApprovalProfile):
+                        if is_cohesive_approval(instance, profile, project_set, group):
+                            res.append((group, project_set))
+                    elif isinstance(profile, AbstractCardinalProfile):
+                        alpha_min = {p: min((b[p] for b in group)) for p in project_set}
+                        if is_cohesive_cardinal(instance, profile, project_set, group, alpha_min):
+                            res.append((group, project_set))
+                    else:
+                        raise NotImplementedError(f'We cannot find cohesive groups in a profile of type {type(profile)}. Only approval and cardinal profiles are supported.')
+    return res *)
+Definition gen_cohesive_groups (v_instance : py_inst) (v_profile : (list py_ballot)) : (list ((list py_ballot) * (list py_proj))%type) :=
+  let v_projects := v_instance in
+  let v_res := (@nil ((list py_ballot) * (list py_proj))%type) in
+  (let v_res := fold_left (fun (v_res : (list ((list py_ballot) * (list py_proj))%type)) v_group => 
+    (if (py_gt (py_len v_group) 0)
+  then (let v_res := fold_left (fun (v_res : (list ((list py_ballot) * (list py_proj))%type)) v_project_set => 
+    (if (py_gt (py_len v_project_set) 0)
+  then let v_res := (if (gen_is_cohesive_approval v_instance v_profile v_project_set v_group)
+  then let v_res := (v_res ++ [(v_group, v_project_set)]) in
+  v_res
+  else v_res) in
+  v_res
+  else v_res)) (gen_powerset (py_instance_iter v_projects)) v_res in
+  v_res)
+  else v_res)) (gen_powerset_ballots v_profile) v_res in
+  v_res).
+Global Hint Unfold gen_cohesive_groups : pygen.
+(* no ZeroDivisionError: every frac(a, b) on the executed path has b != 0 *)
+Definition gen_cohesive_groups_safe (v_instance : py_inst) (v_profile : (list py_ballot)) : bool :=
+  true.
+Global Hint Unfold gen_cohesive_groups_safe : pygen.
+
+(* pabutools/analysis/cohesiveness.py:71 cohesive_groups
+def cohesive_groups(instance: Instance, profile: AbstractProfile, projects=None):
+    if projects is None:
+        projects = instance
+    res = []
+    for group in powerset(profile):
+        if len(group) > 0:
+            for project_set in powerset(projects):
+                if len(project_set) > 0:
+                    if isinstance(profile, AbstractApprovalProfile):
+                        if is_cohesive_approval(instance, profile, project_set, group):
+                            res.append((group, project_set))
+                    elif isinstance(profile, AbstractCardinalProfile):
+                        alpha_min = {p: min((b[p] for b in group)) for p in project_set}
+                        if is_cohesive_cardinal(instance, profile, project_set, group, alpha_min):
+                            res.append((group, project_set))
+                    else:
+                        raise NotImplementedError(f'We cannot find cohesive groups in a profile of type {type(profile)}. Only approval and cardinal profiles are supported.')
+    return res *)
+Definition gen_cohesive_groups_cardinal (v_instance : py_inst) (v_profile : (list py_ballot)) : (list ((list py_ballot) * (list py_proj))%type) :=
+  let v_projects := v_instance in
+  let v_res := (@nil ((list py_ballot) * (list py_proj))%type) in
+  (let v_res := fold_left (fun (v_res : (list ((list py_ballot) * (list py_proj))%type)) v_group => 
+    (if (py_gt (py_len v_group) 0)
+  then (let v_res := fold_left (fun (v_res : (list ((list py_ballot) * (list py_proj))%type)) v_project_set => 
+    (if (py_gt (py_len v_project_set) 0)
+  then let v_alpha_min := (fun v_p => (py_min_list (map (fun v_b => (py_ballot_getitem v_b v_p)) v_group) 0)) in
+  let v_res := (if (gen_is_cohesive_cardinal v_instance v_profile v_project_set v_group v_alpha_min)
+  then let v_res := (v_res ++ [(v_group, v_project_set)]) in
+  v_res
+  else v_res) in
+  v_res
+  else v_res)) (gen_powerset (py_instance_iter v_projects)) v_res in
+  v_res)
+  else v_res)) (gen_powerset_ballots v_profile) v_res in
+  v_res).
+Global Hint Unfold gen_cohesive_groups_cardinal : pygen.
+(* no ZeroDivisionError: every frac(a, b) on the executed path has b != 0 *)
+Definition gen_cohesive_groups_cardinal_safe (v_instance : py_inst) (v_profile : (list py_ballot)) : bool :=
+  let v_projects := v_instance in
+  let v_res := (@nil ((list py_ballot) * (list py_proj))%type) in
+  (let '(ok1, v_res) := fold_left (fun (st1 : (bool * (list ((list py_ballot) * (list py_proj))%type))%type) v_group => let '(ok1, v_res) := st1 in 
+    if ok1 then (if (py_gt (py_len v_group) 0)
+  then (let '(ok2, v_res) := fold_left (fun (st2 : (bool * (list ((list py_ballot) * (list py_proj))%type))%type) v_project_set => let '(ok2, v_res) := st2 in 
+    if ok2 then (if (py_gt (py_len v_project_set) 0)
+  then (if (forallb (fun v_p => (negb (py_is_empty (map (fun v_b => (py_ballot_getitem v_b v_p)) v_group)))) v_project_set) then let v_alpha_min := (fun v_p => (py_min_list (map (fun v_b => (py_ballot_getitem v_b v_p)) v_group) 0)) in
+  let v_res := (if (gen_is_cohesive_cardinal v_instance v_profile v_project_set v_group v_alpha_min)
+  then let v_res := (v_res ++ [(v_group, v_project_set)]) in
+  v_res
+  else v_res) in
+  (ok2, v_res) else (false, v_res))
+  else (ok2, v_res)) else st2) (gen_powerset (py_instance_iter v_projects)) (true, v_res) in
+  (if ok2 then (ok1, v_res) else (false, v_res)))
+  else (ok1, v_res)) else st1) (gen_powerset_ballots v_profile) (true, v_res) in
+  (if ok1 then true else false)).
+Global Hint Unfold gen_cohesive_groups_cardinal_safe : pygen.
+
+(* pabutools/analysis/justifiedrepresentation.py:22 is_in_core
+def is_in_core(instance: Instance, profile: AbstractProfile, sat_class: type[SatisfactionMeasure], budget_allocation: Collection[Project], up_to_func: Callable[[Iterable[Numeric]], Numeric] | None=None) -> bool:
+    for group in powerset(profile):
+        if len(group) > 0:
+            for project_set in powerset(instance):
+                if is_large_enough(sum((profile.multiplicity(b) for b in group)), profile.num_ballots(), total_cost(project_set), instance.budget_limit):
+                    all_better_alone = True
+                    for ballot in group:
+                        sat = sat_class(instance, profile, ballot)
+                        surplus = 0
+                        if up_to_func is not None:
+                            surplus = up_to_func((sat.sat_project(p) for p in project_set if p not in budget_allocation))
+                        if sat.sat(budget_allocation) + surplus >= sat.sat(project_set):
+                            all_better_alone = False
+                            break
+                    if all_better_alone:
+                        return False
+    return True *)
+Definition gen_is_in_core (v_instance : py_inst) (v_profile : (list py_ballot)) (v_sat_class : py_satclass_l) (v_budget_allocation : (list py_proj)) : bool :=
+  (let ret1 := fold_left (fun (ret1 : (option bool)) v_group => 
+    match ret1 with Some _ => ret1 | None => (if (py_gt (py_len v_group) 0)
+  then (let ret2 := fold_left (fun (ret2 : (option (option bool))) v_project_set => 
+    match ret2 with Some _ => ret2 | None => (if (gen_is_large_enough (py_sum (map (fun v_b => 1) v_group)) (py_len v_profile) (py_total_cost v_instance v_project_set) (py_budget_limit v_instance))
+  then let v_all_better_alone := true in
+  (let '(stop3, v_all_better_alone) := fold_left (fun (st3 : (bool * bool)%type) v_ballot => let '(stop3, v_all_better_alone) := st3 in 
+    if stop3 then st3 else let v_sat := (v_sat_class v_instance v_profile v_ballot) in
+  let v_surplus := 0 in
+  (if (py_ge ((v_sat v_budget_allocation) + v_surplus) (v_sat v_project_set))
+  then let v_all_better_alone := false in
+  (true, v_all_better_alone)
+  else (stop3, v_all_better_alone))) v_group (false, v_all_better_alone) in
+  (if v_all_better_alone
+  then (Some ((Some (false))))
+  else ret2))
+  else ret2) end) (gen_powerset (py_instance_iter v_instance)) (@None (option bool)) in
+  match ret2 with Some r2 => r2 | None => ret1 end)
+  else ret1) end) (gen_powerset_ballots v_profile) (@None bool) in
+  match ret1 with Some r1 => r1 | None => true end).
+Global Hint Unfold gen_is_in_core : pygen.
+(* no ZeroDivisionError: every frac(a, b) on the executed path has b != 0 *)
+Definition gen_is_in_core_safe (v_instance : py_inst) (v_profile : (list py_ballot)) (v_sat_class : py_satclass_l) (v_budget_allocation : (list py_proj)) : bool :=
+  true.
+Global Hint Unfold gen_is_in_core_safe : pygen.
+
+(* pabutools/analysis/justifiedrepresentation.py:22 is_in_core
+def is_in_core(instance: Instance, profile: AbstractProfile, sat_class: type[SatisfactionMeasure], budget_allocation: Collection[Project], up_to_func: Callable[[Iterable[Numeric]], Numeric] | None=None) -> bool:
+    for group in powerset(profile):
+        if len(group) > 0:
+            for project_set in powerset(instance):
+                if is_large_enough(sum((profile.multiplicity(b) for b in group)), profile.num_ballots(), total_cost(project_set), instance.budget_limit):
+                    all_better_alone = True
+                    for ballot in group:
+                        sat = sat_class(instance, profile, ballot)
+                        surplus = 0
+                        if up_to_func is not None:
+                            surplus = up_to_func((sat.sat_project(p) for p in project_set if p not in budget_allocation))
+                        if sat.sat(budget_allocation) + surplus >= sat.sat(project_set):
+                            all_better_alone = False
+                            break
+                    if all_better_alone:
+                        return False
+    return True *)
+Definition gen_is_in_core_upto (v_instance : py_inst) (v_profile : (list py_ballot)) (v_sat_class : py_satclass_l) (v_budget_allocation : (list py_proj)) (v_up_to_func : ((list Q) -> Q)) : bool :=
+  (let ret1 := fold_left (fun (ret1 : (option bool)) v_group => 
+    match ret1 with Some _ => ret1 | None => (if (py_gt (py_len v_group) 0)
+  then (let ret2 := fold_left (fun (ret2 : (option (option bool))) v_project_set => 
+    match ret2 with Some _ => ret2 | None => (if (gen_is_large_enough (py_sum (map (fun v_b => 1) v_group)) (py_len v_profile) (py_total_cost v_instance v_project_set) (py_budget_limit v_instance))
+  then let v_all_better_alone := true in
+  (let '(stop3, v_all_better_alone) := fold_left (fun (st3 : (bool * bool)%type) v_ballot => let '(stop3, v_all_better_alone) := st3 in 
+    if stop3 then st3 else let v_sat := (v_sat_class v_instance v_profile v_ballot) in
+  let v_surplus := 0 in
+  let v_surplus := (v_up_to_func (map (fun v_p => (v_sat [v_p])) (filter (fun v_p => (negb (py_in_list v_budget_allocation v_p))) v_project_set))) in
+  (if (py_ge ((v_sat v_budget_allocation) + v_surplus) (v_sat v_project_set))
+  then let v_all_better_alone := false in
+  (true, v_all_better_alone)
+  else (stop3, v_all_better_alone))) v_group (false, v_all_better_alone) in
+  (if v_all_better_alone
+  then (Some ((Some (false))))
+  else ret2))
+  else ret2) end) (gen_powerset (py_instance_iter v_instance)) (@None (option bool)) in
+  match ret2 with Some r2 => r2 | None => ret1 end)
+  else ret1) end) (gen_powerset_ballots v_profile) (@None bool) in
+  match ret1 with Some r1 => r1 | None => true end).
+Global Hint Unfold gen_is_in_core_upto : pygen.
+(* no ZeroDivisionError: every frac(a, b) on the executed path has b != 0 *)
+Definition gen_is_in_core_upto_safe (v_instance : py_inst) (v_profile : (list py_ballot)) (v_sat_class : py_satclass_l) (v_budget_allocation : (list py_proj)) (v_up_to_func : ((list Q) -> Q)) : bool :=
+  true.
+Global Hint Unfold gen_is_in_core_upto_safe : pygen.
+
+(* pabutools/analysis/justifiedrepresentation.py:59 is_strong_EJR_approval
+def is_strong_EJR_approval(instance: Instance, profile: AbstractApprovalProfile, sat_class: type[SatisfactionMeasure], budget_allocation: Collection[Project]) -> bool:
+    for group, project_set in cohesive_groups(instance, profile):
+        all_agents_sat = True
+        for ballot in group:
+            sat = sat_class(instance, profile, ballot)
+            if sat.sat(budget_allocation) < sat.sat(project_set):
+                all_agents_sat = False
+                break
+        if not all_agents_sat:
+            return False
+    return True *)
+Definition gen_is_strong_EJR_approval (v_instance : py_inst) (v_profile : (list py_ballot)) (v_sat_class : py_satclass_l) (v_budget_allocation : (list py_proj)) : bool :=
+  (let ret1 := fold_left (fun (ret1 : (option bool)) it1 => 
+    match ret1 with Some _ => ret1 | None => let v_all_agents_sat := true in
+  (let '(stop2, v_all_agents_sat) := fold_left (fun (st2 : (bool * bool)%type) v_ballot => let '(stop2, v_all_agents_sat) := st2 in 
+    if stop2 then st2 else let v_sat := (v_sat_class v_instance v_profile v_ballot) in
+  (if (py_lt (v_sat v_budget_allocation) (v_sat (snd it1)))
+  then let v_all_agents_sat := false in
+  (true, v_all_agents_sat)
+  else (stop2, v_all_agents_sat))) (fst it1) (false, v_all_agents_sat) in
+  (if (negb v_all_agents_sat)
+  then (Some (false))
+  else ret1)) end) (gen_cohesive_groups v_instance v_profile) (@None bool) in
+  match ret1 with Some r1 => r1 | None => true end).
+Global Hint Unfold gen_is_strong_EJR_approval : pygen.
+(* no ZeroDivisionError: every frac(a, b) on the executed path has b != 0 *)
+Definition gen_is_strong_EJR_approval_safe (v_instance : py_inst) (v_profile : (list py_ballot)) (v_sat_class : py_satclass_l) (v_budget_allocation : (list py_proj)) : bool :=
+  true.
+Global Hint Unfold gen_is_strong_EJR_approval_safe : pygen.
+
+(* pabutools/analysis/justifiedrepresentation.py:81 is_EJR_approval
+def is_EJR_approval(instance: Instance, profile: AbstractApprovalProfile, sat_class: type[SatisfactionMeasure], budget_allocation: Collection[Project], up_to_func: Callable[[Iterable[Numeric]], Numeric] | None=None) -> bool:
+    for group, project_set in cohesive_groups(instance, profile):
+        one_agent_sat = False
+        for ballot in group:
+            sat = sat_class(instance, profile, ballot)
+            surplus = 0
+            if up_to_func is not None:
+                surplus = up_to_func((sat.sat_project(p) for p in project_set if p not in budget_allocation))
+            if sat.sat(budget_allocation) + surplus >= sat.sat(project_set):
+                one_agent_sat = True
+                break
+        if not one_agent_sat:
+            return False
+    return True *)
+Definition gen_is_EJR_approval (v_instance : py_inst) (v_profile : (list py_ballot)) (v_sat_class : py_satclass_l) (v_budget_allocation : (list py_proj)) : bool :=
+  (let ret1 := fold_left (fun (ret1 : (option bool)) it1 => 
+    match ret1 with Some _ => ret1 | None => let v_one_agent_sat := false in
+  (let '(stop2, v_one_agent_sat) := fold_left (fun (st2 : (bool * bool)%type) v_ballot => let '(stop2, v_one_agent_sat) := st2 in 
+    if stop2 then st2 else let v_sat := (v_sat_class v_instance v_profile v_ballot) in
+  let v_surplus := 0 in
+  (if (py_ge ((v_sat v_budget_allocation) + v_surplus) (v_sat (snd it1)))
+  then let v_one_agent_sat := true in
+  (true, v_one_agent_sat)
+  else (stop2, v_one_agent_sat))) (fst it1) (false, v_one_agent_sat) in
+  (if (negb v_one_agent_sat)
+  then (Some (false))
+  else ret1)) end) (gen_cohesive_groups v_instance v_profile) (@None bool) in
+  match ret1 with Some r1 => r1 | None => true end).
+Global Hint Unfold gen_is_EJR_approval : pygen.
+(* no ZeroDivisionError: every frac(a, b) on the executed path has b != 0 *)
+Definition gen_is_EJR_approval_safe (v_instance : py_inst) (v_profile : (list py_ballot)) (v_sat_class : py_satclass_l) (v_budget_allocation : (list py_proj)) : bool :=
+  true.
+Global Hint Unfold gen_is_EJR_approval_safe : pygen.
+
+(* pabutools/analysis/justifiedrepresentation.py:81 is_EJR_approval
+def is_EJR_approval(instance: Instance, profile: AbstractApprovalProfile, sat_class: type[SatisfactionMeasure], budget_allocation: Collection[Project], up_to_func: Callable[[Iterable[Numeric]], Numeric] | None=None) -> bool:
+    for group, project_set in cohesive_groups(instance, profile):
+        one_agent_sat = False
+        for ballot in group:
+            sat = sat_class(instance, profile, ballot)
+            surplus = 0
+            if up_to_func is not None:
+                surplus = up_to_func((sat.sat_project(p) for p in project_set if p not in budget_allocation))
+            if sat.sat(budget_allocation) + surplus >= sat.sat(project_set):
+                one_agent_sat = True
+                break
+        if not one_agent_sat:
+            return False
+    return True *)
+Definition gen_is_EJR_approval_upto (v_instance : py_inst) (v_profile : (list py_ballot)) (v_sat_class : py_satclass_l) (v_budget_allocation : (list py_proj)) (v_up_to_func : ((list Q) -> Q)) : bool :=
+  (let ret1 := fold_left (fun (ret1 : (option bool)) it1 => 
+    match ret1 with Some _ => ret1 | None => let v_one_agent_sat := false in
+  (let '(stop2, v_one_agent_sat) := fold_left (fun (st2 : (bool * bool)%type) v_ballot => let '(stop2, v_one_agent_sat) := st2 in 
+    if stop2 then st2 else let v_sat := (v_sat_class v_instance v_profile v_ballot) in
+  let v_surplus := 0 in
+  let v_surplus := (v_up_to_func (map (fun v_p => (v_sat [v_p])) (filter (fun v_p => (negb (py_in_list v_budget_allocation v_p))) (snd it1)))) in
+  (if (py_ge ((v_sat v_budget_allocation) + v_surplus) (v_sat (snd it1)))
+  then let v_one_agent_sat := true in
+  (true, v_one_agent_sat)
+  else (stop2, v_one_agent_sat))) (fst it1) (false, v_one_agent_sat) in
+  (if (negb v_one_agent_sat)
+  then (Some (false))
+  else ret1)) end) (gen_cohesive_groups v_instance v_profile) (@None bool) in
+  match ret1 with Some r1 => r1 | None => true end).
+Global Hint Unfold gen_is_EJR_approval_upto : pygen.
+(* no ZeroDivisionError: every frac(a, b) on the executed path has b != 0 *)
+Definition gen_is_EJR_approval_upto_safe (v_instance : py_inst) (v_profile : (list py_ballot)) (v_sat_class : py_satclass_l) (v_budget_allocation : (list py_proj)) (v_up_to_func : ((list Q) -> Q)) : bool :=
+  true.
+Global Hint Unfold gen_is_EJR_approval_upto_safe : pygen.
+
+(* pabutools/analysis/justifiedrepresentation.py:111 is_EJR_any_approval
+def is_EJR_any_approval(instance: Instance, profile: AbstractApprovalProfile, sat_class: type[SatisfactionMeasure], budget_allocation: Collection[Project]) -> bool:
+    return is_EJR_approval(instance, profile, sat_class, budget_allocation, up_to_func=lambda x: min(x, default=0)) *)
+Definition gen_is_EJR_any_approval (v_instance : py_inst) (v_profile : (list py_ballot)) (v_sat_class : py_satclass_l) (v_budget_allocation : (list py_proj)) : bool :=
+  (gen_is_EJR_approval_upto v_instance v_profile v_sat_class v_budget_allocation (fun x1_0 => (py_min_list x1_0 0))).
+Global Hint Unfold gen_is_EJR_any_approval : pygen.
+(* no ZeroDivisionError: every frac(a, b) on the executed path has b != 0 *)
+Definition gen_is_EJR_any_approval_safe (v_instance : py_inst) (v_profile : (list py_ballot)) (v_sat_class : py_satclass_l) (v_budget_allocation : (list py_proj)) : bool :=
+  true.
+Global Hint Unfold gen_is_EJR_any_approval_safe : pygen.
+
+(* pabutools/analysis/justifiedrepresentation.py:130 is_EJR_one_approval
+def is_EJR_one_approval(instance: Instance, profile: AbstractApprovalProfile, sat_class: type[SatisfactionMeasure], budget_allocation: Collection[Project]) -> bool:
+    return is_EJR_approval(instance, profile, sat_class, budget_allocation, up_to_func=lambda x: max(x, default=0)) *)
+Definition gen_is_EJR_one_approval (v_instance : py_inst) (v_profile : (list py_ballot)) (v_sat_class : py_satclass_l) (v_budget_allocation : (list py_proj)) : bool :=
+  (gen_is_EJR_approval_upto v_instance v_profile v_sat_class v_budget_allocation (fun x1_0 => (py_max_list x1_0 0))).
+Global Hint Unfold gen_is_EJR_one_approval : pygen.
+(* no ZeroDivisionError: every frac(a, b) on the executed path has b != 0 *)
+Definition gen_is_EJR_one_approval_safe (v_instance : py_inst) (v_profile : (list py_ballot)) (v_sat_class : py_satclass_l) (v_budget_allocation : (list py_proj)) : bool :=
+  true.
+Global Hint Unfold gen_is_EJR_one_approval_safe : pygen.
+
+(* pabutools/analysis/justifiedrepresentation.py:149 is_PJR_approval
+def is_PJR_approval(instance: Instance, profile: AbstractApprovalProfile, sat_class: type[SatisfactionMeasure], budget_allocation: Collection[Project], up_to_func: Callable[[Iterable[Numeric]], Numeric] | None=None) -> bool:
+    for group, project_set in cohesive_groups(instance, profile):
+        sat = sat_class(instance, profile, ApprovalBallot(instance))
+        threshold = sat.sat(project_set)
+        group_approved = {p for p in budget_allocation if any((p in b for b in group))}
+        surplus = 0
+        if up_to_func is not None:
+            surplus = up_to_func((sat.sat_project(p) for p in project_set if p not in budget_allocation))
+        group_sat = sat.sat(group_approved) + surplus
+        if group_sat < threshold:
+            return False
+    return True *)
+Definition gen_is_PJR_approval (v_instance : py_inst) (v_profile : (list py_ballot)) (v_sat_class : py_satclass_l) (v_budget_allocation : (list py_proj)) : bool :=
+  (let ret1 := fold_left (fun (ret1 : (option bool)) it1 => 
+    match ret1 with Some _ => ret1 | None => let v_sat := (v_sat_class v_instance v_profile (py_full_ballot v_instance)) in
+  let v_threshold := (v_sat (snd it1)) in
+  let v_group_approved := (filter (fun v_p => (py_any (map (fun v_b => (py_in_ballot v_b v_p)) (fst it1)))) v_budget_allocation) in
+  let v_surplus := 0 in
+  let v_group_sat := ((v_sat v_group_approved) + v_surplus) in
+  (if (py_lt v_group_sat v_threshold)
+  then (Some (false))
+  else ret1) end) (gen_cohesive_groups v_instance v_profile) (@None bool) in
+  match ret1 with Some r1 => r1 | None => true end).
+Global Hint Unfold gen_is_PJR_approval : pygen.
+(* no ZeroDivisionError: every frac(a, b) on the executed path has b != 0 *)
+Definition gen_is_PJR_approval_safe (v_instance : py_inst) (v_profile : (list py_ballot)) (v_sat_class : py_satclass_l) (v_budget_allocation : (list py_proj)) : bool :=
+  true.
+Global Hint Unfold gen_is_PJR_approval_safe : pygen.
+
+(* pabutools/analysis/justifiedrepresentation.py:149 is_PJR_approval
+def is_PJR_approval(instance: Instance, profile: AbstractApprovalProfile, sat_class: type[SatisfactionMeasure], budget_allocation: Collection[Project], up_to_func: Callable[[Iterable[Numeric]], Numeric] | None=None) -> bool:
+    for group, project_set in cohesive_groups(instance, profile):
+        sat = sat_class(instance, profile, ApprovalBallot(instance))
+        threshold = sat.sat(project_set)
+        group_approved = {p for p in budget_allocation if any((p in b for b in group))}
+        surplus = 0
+        if up_to_func is not None:
+            surplus = up_to_func((sat.sat_project(p) for p in project_set if p not in budget_allocation))
+        group_sat = sat.sat(group_approved) + surplus
+        if group_sat < threshold:
+            return False
+    return True *)
+Definition gen_is_PJR_approval_upto (v_instance : py_inst) (v_profile : (list py_ballot)) (v_sat_class : py_satclass_l) (v_budget_allocation : (list py_proj)) (v_up_to_func : ((list Q) -> Q)) : bool :=
+  (let ret1 := fold_left (fun (ret1 : (option bool)) it1 => 
+    match ret1 with Some _ => ret1 | None => let v_sat := (v_sat_class v_instance v_profile (py_full_ballot v_instance)) in
+  let v_threshold := (v_sat (snd it1)) in
+  let v_group_approved := (filter (fun v_p => (py_any (map (fun v_b => (py_in_ballot v_b v_p)) (fst it1)))) v_budget_allocation) in
+  let v_surplus := 0 in
+  let v_surplus := (v_up_to_func (map (fun v_p => (v_sat [v_p])) (filter (fun v_p => (negb (py_in_list v_budget_allocation v_p))) (snd it1)))) in
+  let v_group_sat := ((v_sat v_group_approved) + v_surplus) in
+  (if (py_lt v_group_sat v_threshold)
+  then (Some (false))
+  else ret1) end) (gen_cohesive_groups v_instance v_profile) (@None bool) in
+  match ret1 with Some r1 => r1 | None => true end).
+Global Hint Unfold gen_is_PJR_approval_upto : pygen.
+(* no ZeroDivisionError: every frac(a, b) on the executed path has b != 0 *)
+Definition gen_is_PJR_approval_upto_safe (v_instance : py_inst) (v_profile : (list py_ballot)) (v_sat_class : py_satclass_l) (v_budget_allocation : (list py_proj)) (v_up_to_func : ((list Q) -> Q)) : bool :=
+  true.
+Global Hint Unfold gen_is_PJR_approval_upto_safe : pygen.
+
+(* pabutools/analysis/justifiedrepresentation.py:175 is_PJR_any_approval
+def is_PJR_any_approval(instance: Instance, profile: AbstractApprovalProfile, sat_class: type[SatisfactionMeasure], budget_allocation: Collection[Project]) -> bool:
+    return is_PJR_approval(instance, profile, sat_class, budget_allocation, up_to_func=lambda x: min(x, default=0)) *)
+Definition gen_is_PJR_any_approval (v_instance : py_inst) (v_profile : (list py_ballot)) (v_sat_class : py_satclass_l) (v_budget_allocation : (list py_proj)) : bool :=
+  (gen_is_PJR_approval_upto v_instance v_profile v_sat_class v_budget_allocation (fun x1_0 => (py_min_list x1_0 0))).
+Global Hint Unfold gen_is_PJR_any_approval : pygen.
+(* no ZeroDivisionError: every frac(a, b) on the executed path has b != 0 *)
+Definition gen_is_PJR_any_approval_safe (v_instance : py_inst) (v_profile : (list py_ballot)) (v_sat_class : py_satclass_l) (v_budget_allocation : (list py_proj)) : bool :=
+  true.
+Global Hint Unfold gen_is_PJR_any_approval_safe : pygen.
+
+(* pabutools/analysis/justifiedrepresentation.py:194 is_PJR_one_approval
+def is_PJR_one_approval(instance: Instance, profile: AbstractApprovalProfile, sat_class: type[SatisfactionMeasure], budget_allocation: Collection[Project]) -> bool:
+    return is_PJR_approval(instance, profile, sat_class, budget_allocation, up_to_func=lambda x: max(x, default=0)) *)
+Definition gen_is_PJR_one_approval (v_instance : py_inst) (v_profile : (list py_ballot)) (v_sat_class : py_satclass_l) (v_budget_allocation : (list py_proj)) : bool :=
+  (gen_is_PJR_approval_upto v_instance v_profile v_sat_class v_budget_allocation (fun x1_0 => (py_max_list x1_0 0))).
+Global Hint Unfold gen_is_PJR_one_approval : pygen.
+(* no ZeroDivisionError: every frac(a, b) on the executed path has b != 0 *)
+Definition gen_is_PJR_one_approval_safe (v_instance : py_inst) (v_profile : (list py_ballot)) (v_sat_class : py_satclass_l) (v_budget_allocation : (list py_proj)) : bool :=
+  true.
+Global Hint Unfold gen_is_PJR_one_approval_safe : pygen.
+
+(* pabutools/analysis/justifiedrepresentation.py:213 is_strong_EJR_cardinal
+def is_strong_EJR_cardinal(instance: Instance, profile: AbstractCardinalProfile, budget_allocation: Collection[Project], sat_class: type[SatisfactionMeasure]=Additive_Cardinal_Sat) -> bool:
+    for group, project_set in cohesive_groups(instance, profile):
+        all_agents_sat = True
+        threshold = sum((min((b[p] for b in group)) for p in project_set))
+        for ballot in group:
+            sat = sat_class(instance, profile, ballot)
+            if sat.sat(budget_allocation) < threshold:
+                all_agents_sat = False
+                break
+        if not all_agents_sat:
+            return False
+    return True *)
+Definition gen_is_strong_EJR_cardinal (v_instance : py_inst) (v_profile : (list py_ballot)) (v_budget_allocation : (list py_proj)) (v_sat_class : py_satclass_l) : bool :=
+  (let ret1 := fold_left (fun (ret1 : (option bool)) it1 => 
+    match ret1 with Some _ => ret1 | None => let v_all_agents_sat := true in
+  let v_threshold := (py_sum (map (fun v_p => (py_min_list (map (fun v_b => (py_ballot_getitem v_b v_p)) (fst it1)) 0)) (snd it1))) in
+  (let '(stop2, v_all_agents_sat) := fold_left (fun (st2 : (bool * bool)%type) v_ballot => let '(stop2, v_all_agents_sat) := st2 in 
+    if stop2 then st2 else let v_sat := (v_sat_class v_instance v_profile v_ballot) in
+  (if (py_lt (v_sat v_budget_allocation) v_threshold)
+  then let v_all_agents_sat := false in
+  (true, v_all_agents_sat)
+  else (stop2, v_all_agents_sat))) (fst it1) (false, v_all_agents_sat) in
+  (if (negb v_all_agents_sat)
+  then (Some (false))
+  else ret1)) end) (gen_cohesive_groups_cardinal v_instance v_profile) (@None bool) in
+  match ret1 with Some r1 => r1 | None => true end).
+Global Hint Unfold gen_is_strong_EJR_cardinal : pygen.
+(* no ZeroDivisionError: every frac(a, b) on the executed path has b != 0 *)
+Definition gen_is_strong_EJR_cardinal_safe (v_instance : py_inst) (v_profile : (list py_ballot)) (v_budget_allocation : (list py_proj)) (v_sat_class : py_satclass_l) : bool :=
+  (if (gen_cohesive_groups_cardinal_safe  v_instance v_profile) then (let '(ok1, ret1) := fold_left (fun (st1 : (bool * (option bool))%type) it1 => let '(ok1, ret1) := st1 in 
+    if ok1 then match ret1 with Some _ => st1 | None => let v_all_agents_sat := true in
+  (if (forallb (fun v_p => (negb (py_is_empty (map (fun v_b => (py_ballot_getitem v_b v_p)) (fst it1))))) (snd it1)) then let v_threshold := (py_sum (map (fun v_p => (py_min_list (map (fun v_b => (py_ballot_getitem v_b v_p)) (fst it1)) 0)) (snd it1))) in
+  (let '(stop2, v_all_agents_sat) := fold_left (fun (st2 : (bool * bool)%type) v_ballot => let '(stop2, v_all_agents_sat) := st2 in 
+    if stop2 then st2 else let v_sat := (v_sat_class v_instance v_profile v_ballot) in
+  (if (py_lt (v_sat v_budget_allocation) v_threshold)
+  then let v_all_agents_sat := false in
+  (true, v_all_agents_sat)
+  else (stop2, v_all_agents_sat))) (fst it1) (false, v_all_agents_sat) in
+  (if (negb v_all_agents_sat)
+  then (ok1, (Some (true)))
+  else (ok1, ret1))) else (false, ret1)) end else st1) (gen_cohesive_groups_cardinal v_instance v_profile) (true, (@None bool)) in
+  (if ok1 then match ret1 with Some r1 => r1 | None => true end else false)) else false).
+Global Hint Unfold gen_is_strong_EJR_cardinal_safe : pygen.
+
+(* pabutools/analysis/justifiedrepresentation.py:236 is_EJR_cardinal
+def is_EJR_cardinal(instance: Instance, profile: AbstractCardinalProfile, budget_allocation: Collection[Project], sat_class: type[SatisfactionMeasure]=Additive_Cardinal_Sat, up_to_func: Callable[[Iterable[Numeric]], Numeric] | None=None) -> bool:
+    for group, project_set in cohesive_groups(instance, profile):
+        one_agent_sat = False
+        threshold = sum((min((b[p] for b in group)) for p in project_set))
+        for ballot in group:
+            sat = sat_class(instance, profile, ballot)
+            surplus = 0
+            if up_to_func is not None:
+                surplus = up_to_func((sat.sat_project(p) for p in project_set if p not in budget_allocation))
+            if sat.sat(budget_allocation) + surplus >= threshold:
+                one_agent_sat = True
+                break
+        if not one_agent_sat:
+            return False
+    return True *)
+Definition gen_is_EJR_cardinal (v_instance : py_inst) (v_profile : (list py_ballot)) (v_budget_allocation : (list py_proj)) (v_sat_class : py_satclass_l) : bool :=
+  (let ret1 := fold_left (fun (ret1 : (option bool)) it1 => 
+    match ret1 with Some _ => ret1 | None => let v_one_agent_sat := false in
+  let v_threshold := (py_sum (map (fun v_p => (py_min_list (map (fun v_b => (py_ballot_getitem v_b v_p)) (fst it1)) 0)) (snd it1))) in
+  (let '(stop2, v_one_agent_sat) := fold_left (fun (st2 : (bool * bool)%type) v_ballot => let '(stop2, v_one_agent_sat) := st2 in 
+    if stop2 then st2 else let v_sat := (v_sat_class v_instance v_profile v_ballot) in
+  let v_surplus := 0 in
+  (if (py_ge ((v_sat v_budget_allocation) + v_surplus) v_threshold)
+  then let v_one_agent_sat := true in
+  (true, v_one_agent_sat)
+  else (stop2, v_one_agent_sat))) (fst it1) (false, v_one_agent_sat) in
+  (if (negb v_one_agent_sat)
+  then (Some (false))
+  else ret1)) end) (gen_cohesive_groups_cardinal v_instance v_profile) (@None bool) in
+  match ret1 with Some r1 => r1 | None => true end).
+Global Hint Unfold gen_is_EJR_cardinal : pygen.
+(* no ZeroDivisionError: every frac(a, b) on the executed path has b != 0 *)
+Definition gen_is_EJR_cardinal_safe (v_instance : py_inst) (v_profile : (list py_ballot)) (v_budget_allocation : (list py_proj)) (v_sat_class : py_satclass_l) : bool :=
+  (if (gen_cohesive_groups_cardinal_safe  v_instance v_profile) then (let '(ok1, ret1) := fold_left (fun (st1 : (bool * (option bool))%type) it1 => let '(ok1, ret1) := st1 in 
+    if ok1 then match ret1 with Some _ => st1 | None => let v_one_agent_sat := false in
+  (if (forallb (fun v_p => (negb (py_is_empty (map (fun v_b => (py_ballot_getitem v_b v_p)) (fst it1))))) (snd it1)) then let v_threshold := (py_sum (map (fun v_p => (py_min_list (map (fun v_b => (py_ballot_getitem v_b v_p)) (fst it1)) 0)) (snd it1))) in
+  (let '(stop2, v_one_agent_sat) := fold_left (fun (st2 : (bool * bool)%type) v_ballot => let '(stop2, v_one_agent_sat) := st2 in 
+    if stop2 then st2 else let v_sat := (v_sat_class v_instance v_profile v_ballot) in
+  let v_surplus := 0 in
+  (if (py_ge ((v_sat v_budget_allocation) + v_surplus) v_threshold)
+  then let v_one_agent_sat := true in
+  (true, v_one_agent_sat)
+  else (stop2, v_one_agent_sat))) (fst it1) (false, v_one_agent_sat) in
+  (if (negb v_one_agent_sat)
+  then (ok1, (Some (true)))
+  else (ok1, ret1))) else (false, ret1)) end else st1) (gen_cohesive_groups_cardinal v_instance v_profile) (true, (@None bool)) in
+  (if ok1 then match ret1 with Some r1 => r1 | None => true end else false)) else false).
+Global Hint Unfold gen_is_EJR_cardinal_safe : pygen.
+
+(* pabutools/analysis/justifiedrepresentation.py:236 is_EJR_cardinal
+def is_EJR_cardinal(instance: Instance, profile: AbstractCardinalProfile, budget_allocation: Collection[Project], sat_class: type[SatisfactionMeasure]=Additive_Cardinal_Sat, up_to_func: Callable[[Iterable[Numeric]], Numeric] | None=None) -> bool:
+    for group, project_set in cohesive_groups(instance, profile):
+        one_agent_sat = False
+        threshold = sum((min((b[p] for b in group)) for p in project_set))
+        for ballot in group:
+            sat = sat_class(instance, profile, ballot)
+            surplus = 0
+            if up_to_func is not None:
+                surplus = up_to_func((sat.sat_project(p) for p in project_set if p not in budget_allocation))
+            if sat.sat(budget_allocation) + surplus >= threshold:
+                one_agent_sat = True
+                break
+        if not one_agent_sat:
+            return False
+    return True *)
+Definition gen_is_EJR_cardinal_upto (v_instance : py_inst) (v_profile : (list py_ballot)) (v_budget_allocation : (list py_proj)) (v_sat_class : py_satclass_l) (v_up_to_func : ((list Q) -> Q)) : bool :=
+  (let ret1 := fold_left (fun (ret1 : (option bool)) it1 => 
+    match ret1 with Some _ => ret1 | None => let v_one_agent_sat := false in
+  let v_threshold := (py_sum (map (fun v_p => (py_min_list (map (fun v_b => (py_ballot_getitem v_b v_p)) (fst it1)) 0)) (snd it1))) in
+  (let '(stop2, v_one_agent_sat) := fold_left (fun (st2 : (bool * bool)%type) v_ballot => let '(stop2, v_one_agent_sat) := st2 in 
+    if stop2 then st2 else let v_sat := (v_sat_class v_instance v_profile v_ballot) in
+  let v_surplus := 0 in
+  let v_surplus := (v_up_to_func (map (fun v_p => (v_sat [v_p])) (filter (fun v_p => (negb (py_in_list v_budget_allocation v_p))) (snd it1)))) in
+  (if (py_ge ((v_sat v_budget_allocation) + v_surplus) v_threshold)
+  then let v_one_agent_sat := true in
+  (true, v_one_agent_sat)
+  else (stop2, v_one_agent_sat))) (fst it1) (false, v_one_agent_sat) in
+  (if (negb v_one_agent_sat)
+  then (Some (false))
+  else ret1)) end) (gen_cohesive_groups_cardinal v_instance v_profile) (@None bool) in
+  match ret1 with Some r1 => r1 | None => true end).
+Global Hint Unfold gen_is_EJR_cardinal_upto : pygen.
+(* no ZeroDivisionError: every frac(a, b) on the executed path has b != 0 *)
+Definition gen_is_EJR_cardinal_upto_safe (v_instance : py_inst) (v_profile : (list py_ballot)) (v_budget_allocation : (list py_proj)) (v_sat_class : py_satclass_l) (v_up_to_func : ((list Q) -> Q)) : bool :=
+  (if (gen_cohesive_groups_cardinal_safe  v_instance v_profile) then (let '(ok1, ret1) := fold_left (fun (st1 : (bool * (option bool))%type) it1 => let '(ok1, ret1) := st1 in 
+    if ok1 then match ret1 with Some _ => st1 | None => let v_one_agent_sat := false in
+  (if (forallb (fun v_p => (negb (py_is_empty (map (fun v_b => (py_ballot_getitem v_b v_p)) (fst it1))))) (snd it1)) then let v_threshold := (py_sum (map (fun v_p => (py_min_list (map (fun v_b => (py_ballot_getitem v_b v_p)) (fst it1)) 0)) (snd it1))) in
+  (let '(stop2, v_one_agent_sat) := fold_left (fun (st2 : (bool * bool)%type) v_ballot => let '(stop2, v_one_agent_sat) := st2 in 
+    if stop2 then st2 else let v_sat := (v_sat_class v_instance v_profile v_ballot) in
+  let v_surplus := 0 in
+  let v_surplus := (v_up_to_func (map (fun v_p => (v_sat [v_p])) (filter (fun v_p => (negb (py_in_list v_budget_allocation v_p))) (snd it1)))) in
+  (if (py_ge ((v_sat v_budget_allocation) + v_surplus) v_threshold)
+  then let v_one_agent_sat := true in
+  (true, v_one_agent_sat)
+  else (stop2, v_one_agent_sat))) (fst it1) (false, v_one_agent_sat) in
+  (if (negb v_one_agent_sat)
+  then (ok1, (Some (true)))
+  else (ok1, ret1))) else (false, ret1)) end else st1) (gen_cohesive_groups_cardinal v_instance v_profile) (true, (@None bool)) in
+  (if ok1 then match ret1 with Some r1 => r1 | None => true end else false)) else false).
+Global Hint Unfold gen_is_EJR_cardinal_upto_safe : pygen.
+
+(* pabutools/analysis/justifiedrepresentation.py:267 is_EJR_any_cardinal
+def is_EJR_any_cardinal(instance: Instance, profile: AbstractCardinalProfile, budget_allocation: Collection[Project]) -> bool:
+    return is_EJR_cardinal(instance, profile, budget_allocation, up_to_func=lambda x: min(x, default=0)) *)
+Definition gen_is_EJR_any_cardinal (cls_Additive_Cardinal_Sat : py_satclass_l) (v_instance : py_inst) (v_profile : (list py_ballot)) (v_budget_allocation : (list py_proj)) : bool :=
+  (gen_is_EJR_cardinal_upto v_instance v_profile v_budget_allocation cls_Additive_Cardinal_Sat (fun x1_0 => (py_min_list x1_0 0))).
+Global Hint Unfold gen_is_EJR_any_cardinal : pygen.
+(* the satisfaction classes the function names (its cls_ parameters, in that order) *)
+Definition gen_is_EJR_any_cardinal_classes : list string := ["Additive_Cardinal_Sat"%string].
+(* no ZeroDivisionError: every frac(a, b) on the executed path has b != 0 *)
+Definition gen_is_EJR_any_cardinal_safe (cls_Additive_Cardinal_Sat : py_satclass_l) (v_instance : py_inst) (v_profile : (list py_ballot)) (v_budget_allocation : (list py_proj)) : bool :=
+  (gen_is_EJR_cardinal_upto_safe  v_instance v_profile v_budget_allocation cls_Additive_Cardinal_Sat (fun x1_0 => (py_min_list x1_0 0))).
+Global Hint Unfold gen_is_EJR_any_cardinal_safe : pygen.
+
+(* pabutools/analysis/justifiedrepresentation.py:281 is_EJR_one_cardinal
+def is_EJR_one_cardinal(instance: Instance, profile: AbstractCardinalProfile, budget_allocation: Collection[Project]) -> bool:
+    return is_EJR_cardinal(instance, profile, budget_allocation, up_to_func=lambda x: max(x, default=0)) *)
+Definition gen_is_EJR_one_cardinal (cls_Additive_Cardinal_Sat : py_satclass_l) (v_instance : py_inst) (v_profile : (list py_ballot)) (v_budget_allocation : (list py_proj)) : bool :=
+  (gen_is_EJR_cardinal_upto v_instance v_profile v_budget_allocation cls_Additive_Cardinal_Sat (fun x1_0 => (py_max_list x1_0 0))).
+Global Hint Unfold gen_is_EJR_one_cardinal : pygen.
+(* the satisfaction classes the function names (its cls_ parameters, in that order) *)
+Definition gen_is_EJR_one_cardinal_classes : list string := ["Additive_Cardinal_Sat"%string].
+(* no ZeroDivisionError: every frac(a, b) on the executed path has b != 0 *)
+Definition gen_is_EJR_one_cardinal_safe (cls_Additive_Cardinal_Sat : py_satclass_l) (v_instance : py_inst) (v_profile : (list py_ballot)) (v_budget_allocation : (list py_proj)) : bool :=
+  (gen_is_EJR_cardinal_upto_safe  v_instance v_profile v_budget_allocation cls_Additive_Cardinal_Sat (fun x1_0 => (py_max_list x1_0 0))).
+Global Hint Unfold gen_is_EJR_one_cardinal_safe : pygen.
+
+(* pabutools/analysis/justifiedrepresentation.py:295 is_PJR_cardinal
+def is_PJR_cardinal(instance: Instance, profile: AbstractCardinalProfile, budget_allocation: Iterable[Project], up_to_func: Callable[[Iterable[Numeric]], Numeric] | None=None) -> bool:
+    for group, project_set in cohesive_groups(instance, profile):
+        threshold = sum((min((b[p] for b in group)) for p in project_set))
+        group_sat = sum((max((b[p] for b in group)) for p in budget_allocation))
+        surplus = 0
+        if up_to_func is not None:
+            surplus = up_to_func((max((b[p] for b in group)) for p in project_set if p not in budget_allocation))
+        if group_sat + surplus < threshold:
+            return False
+    return True *)
+Definition gen_is_PJR_cardinal (v_instance : py_inst) (v_profile : (list py_ballot)) (v_budget_allocation : (list py_proj)) : bool :=
+  (let ret1 := fold_left (fun (ret1 : (option bool)) it1 => 
+    match ret1 with Some _ => ret1 | None => let v_threshold := (py_sum (map (fun v_p => (py_min_list (map (fun v_b => (py_ballot_getitem v_b v_p)) (fst it1)) 0)) (snd it1))) in
+  let v_group_sat := (py_sum (map (fun v_p => (py_max_list (map (fun v_b => (py_ballot_getitem v_b v_p)) (fst it1)) 0)) v_budget_allocation)) in
+  let v_surplus := 0 in
+  (if (py_lt (v_group_sat + v_surplus) v_threshold)
+  then (Some (false))
+  else ret1) end) (gen_cohesive_groups_cardinal v_instance v_profile) (@None bool) in
+  match ret1 with Some r1 => r1 | None => true end).
+Global Hint Unfold gen_is_PJR_cardinal : pygen.
+(* no ZeroDivisionError: every frac(a, b) on the executed path has b != 0 *)
+Definition gen_is_PJR_cardinal_safe (v_instance : py_inst) (v_profile : (list py_ballot)) (v_budget_allocation : (list py_proj)) : bool :=
+  (if (gen_cohesive_groups_cardinal_safe  v_instance v_profile) then (let '(ok1, ret1) := fold_left (fun (st1 : (bool * (option bool))%type) it1 => let '(ok1, ret1) := st1 in 
+    if ok1 then match ret1 with Some _ => st1 | None => (if (forallb (fun v_p => (negb (py_is_empty (map (fun v_b => (py_ballot_getitem v_b v_p)) (fst it1))))) (snd it1)) then let v_threshold := (py_sum (map (fun v_p => (py_min_list (map (fun v_b => (py_ballot_getitem v_b v_p)) (fst it1)) 0)) (snd it1))) in
+  (if (forallb (fun v_p => (negb (py_is_empty (map (fun v_b => (py_ballot_getitem v_b v_p)) (fst it1))))) v_budget_allocation) then let v_group_sat := (py_sum (map (fun v_p => (py_max_list (map (fun v_b => (py_ballot_getitem v_b v_p)) (fst it1)) 0)) v_budget_allocation)) in
+  let v_surplus := 0 in
+  (if (py_lt (v_group_sat + v_surplus) v_threshold)
+  then (ok1, (Some (true)))
+  else (ok1, ret1)) else (false, ret1)) else (false, ret1)) end else st1) (gen_cohesive_groups_cardinal v_instance v_profile) (true, (@None bool)) in
+  (if ok1 then match ret1 with Some r1 => r1 | None => true end else false)) else false).
+Global Hint Unfold gen_is_PJR_cardinal_safe : pygen.
+
+(* pabutools/analysis/justifiedrepresentation.py:295 is_PJR_cardinal
+def is_PJR_cardinal(instance: Instance, profile: AbstractCardinalProfile, budget_allocation: Iterable[Project], up_to_func: Callable[[Iterable[Numeric]], Numeric] | None=None) -> bool:
+    for group, project_set in cohesive_groups(instance, profile):
+        threshold = sum((min((b[p] for b in group)) for p in project_set))
+        group_sat = sum((max((b[p] for b in group)) for p in budget_allocation))
+        surplus = 0
+        if up_to_func is not None:
+            surplus = up_to_func((max((b[p] for b in group)) for p in project_set if p not in budget_allocation))
+        if group_sat + surplus < threshold:
+            return False
+    return True *)
+Definition gen_is_PJR_cardinal_upto (v_instance : py_inst) (v_profile : (list py_ballot)) (v_budget_allocation : (list py_proj)) (v_up_to_func : ((list Q) -> Q)) : bool :=
+  (let ret1 := fold_left (fun (ret1 : (option bool)) it1 => 
+    match ret1 with Some _ => ret1 | None => let v_threshold := (py_sum (map (fun v_p => (py_min_list (map (fun v_b => (py_ballot_getitem v_b v_p)) (fst it1)) 0)) (snd it1))) in
+  let v_group_sat := (py_sum (map (fun v_p => (py_max_list (map (fun v_b => (py_ballot_getitem v_b v_p)) (fst it1)) 0)) v_budget_allocation)) in
+  let v_surplus := 0 in
+  let v_surplus := (v_up_to_func (map (fun v_p => (py_max_list (map (fun v_b => (py_ballot_getitem v_b v_p)) (fst it1)) 0)) (filter (fun v_p => (negb (py_in_list v_budget_allocation v_p))) (snd it1)))) in
+  (if (py_lt (v_group_sat + v_surplus) v_threshold)
+  then (Some (false))
+  else ret1) end) (gen_cohesive_groups_cardinal v_instance v_profile) (@None bool) in
+  match ret1 with Some r1 => r1 | None => true end).
+Global Hint Unfold gen_is_PJR_cardinal_upto : pygen.
+(* no ZeroDivisionError: every frac(a, b) on the executed path has b != 0 *)
+Definition gen_is_PJR_cardinal_upto_safe (v_instance : py_inst) (v_profile : (list py_ballot)) (v_budget_allocation : (list py_proj)) (v_up_to_func : ((list Q) -> Q)) : bool :=
+  (if (gen_cohesive_groups_cardinal_safe  v_instance v_profile) then (let '(ok1, ret1) := fold_left (fun (st1 : (bool * (option bool))%type) it1 => let '(ok1, ret1) := st1 in 
+    if ok1 then match ret1 with Some _ => st1 | None => (if (forallb (fun v_p => (negb (py_is_empty (map (fun v_b => (py_ballot_getitem v_b v_p)) (fst it1))))) (snd it1)) then let v_threshold := (py_sum (map (fun v_p => (py_min_list (map (fun v_b => (py_ballot_getitem v_b v_p)) (fst it1)) 0)) (snd it1))) in
+  (if (forallb (fun v_p => (negb (py_is_empty (map (fun v_b => (py_ballot_getitem v_b v_p)) (fst it1))))) v_budget_allocation) then let v_group_sat := (py_sum (map (fun v_p => (py_max_list (map (fun v_b => (py_ballot_getitem v_b v_p)) (fst it1)) 0)) v_budget_allocation)) in
+  let v_surplus := 0 in
+  (if (forallb (fun v_p => (negb (py_is_empty (map (fun v_b => (py_ballot_getitem v_b v_p)) (fst it1))))) (filter (fun v_p => (negb (py_in_list v_budget_allocation v_p))) (snd it1))) then let v_surplus := (v_up_to_func (map (fun v_p => (py_max_list (map (fun v_b => (py_ballot_getitem v_b v_p)) (fst it1)) 0)) (filter (fun v_p => (negb (py_in_list v_budget_allocation v_p))) (snd it1)))) in
+  (if (py_lt (v_group_sat + v_surplus) v_threshold)
+  then (ok1, (Some (true)))
+  else (ok1, ret1)) else (false, ret1)) else (false, ret1)) else (false, ret1)) end else st1) (gen_cohesive_groups_cardinal v_instance v_profile) (true, (@None bool)) in
+  (if ok1 then match ret1 with Some r1 => r1 | None => true end else false)) else false).
+Global Hint Unfold gen_is_PJR_cardinal_upto_safe : pygen.
+
+(* pabutools/analysis/justifiedrepresentation.py:320 is_PJR_any_cardinal
+def is_PJR_any_cardinal(instance: Instance, profile: AbstractCardinalProfile, budget_allocation: Iterable[Project]) -> bool:
+    return is_PJR_cardinal(instance, profile, budget_allocation, up_to_func=lambda x: min(x, default=0)) *)
+Definition gen_is_PJR_any_cardinal (v_instance : py_inst) (v_profile : (list py_ballot)) (v_budget_allocation : (list py_proj)) : bool :=
+  (gen_is_PJR_cardinal_upto v_instance v_profile v_budget_allocation (fun x1_0 => (py_min_list x1_0 0))).
+Global Hint Unfold gen_is_PJR_any_cardinal : pygen.
+(* no ZeroDivisionError: every frac(a, b) on the executed path has b != 0 *)
+Definition gen_is_PJR_any_cardinal_safe (v_instance : py_inst) (v_profile : (list py_ballot)) (v_budget_allocation : (list py_proj)) : bool :=
+  (gen_is_PJR_cardinal_upto_safe  v_instance v_profile v_budget_allocation (fun x1_0 => (py_min_list x1_0 0))).
+Global Hint Unfold gen_is_PJR_any_cardinal_safe : pygen.
+
+(* pabutools/analysis/justifiedrepresentation.py:334 is_PJR_one_cardinal
+def is_PJR_one_cardinal(instance: Instance, profile: AbstractCardinalProfile, budget_allocation: Iterable[Project]) -> bool:
+    return is_PJR_cardinal(instance, profile, budget_allocation, up_to_func=lambda x: max(x, default=0)) *)
+Definition gen_is_PJR_one_cardinal (v_instance : py_inst) (v_profile : (list py_ballot)) (v_budget_allocation : (list py_proj)) : bool :=
+  (gen_is_PJR_cardinal_upto v_instance v_profile v_budget_allocation (fun x1_0 => (py_max_list x1_0 0))).
+Global Hint Unfold gen_is_PJR_one_cardinal : pygen.
+(* no ZeroDivisionError: every frac(a, b) on the executed path has b != 0 *)
+Definition gen_is_PJR_one_cardinal_safe (v_instance : py_inst) (v_profile : (list py_ballot)) (v_budget_allocation : (list py_proj)) : bool :=
+  (gen_is_PJR_cardinal_upto_safe  v_instance v_profile v_budget_allocation (fun x1_0 => (py_max_list x1_0 0))).
+Global Hint Unfold gen_is_PJR_one_cardinal_safe : pygen.
 
 (* pabutools/election/satisfaction/additivesatisfaction.py:82 AdditiveSatisfaction.preprocessing
 def preprocessing(self, instance: Instance, profile: AbstractProfile, ballot: AbstractBallot) -> dict:
@@ -874,10 +1987,11 @@ def budget_allocations(self) -> Generator[Collection[Project]]:
 Definition gen_Instance_budget_allocations (v_self : py_inst) : (list (list py_proj)) :=
   let yielded := (@nil (list py_proj)) in
   (let yielded := fold_left (fun (yielded : (list (list py_proj))) v_b => 
-    (if (gen_Instance_is_feasible v_self v_b)
+    let yielded := (if (gen_Instance_is_feasible v_self v_b)
   then let yielded := (yielded ++ [v_b]) in
   yielded
-  else yielded)) (gen_powerset (py_instance_iter v_self)) yielded in
+  else yielded) in
+  yielded) (gen_powerset (py_instance_iter v_self)) yielded in
   yielded).
 Global Hint Unfold gen_Instance_budget_allocations : pygen.
 (* no ZeroDivisionError: every frac(a, b) on the executed path has b != 0 *)
@@ -1117,5 +2231,7 @@ Definition gen_untranslated_sat : list string := [].
 Definition gen_untranslated_tie : list string := [].
 Definition gen_untranslated_inst : list string := [].
 Definition gen_untranslated_stats : list string := [].
+Definition gen_untranslated_price : list string := [].
+Definition gen_untranslated_jr : list string := [].
 (* float-only statistics that are outside the fragment (correspondence only) *)
 Definition gen_correspondence_only : list string := ["gen_satisfaction_histogram"%string; "gen_median_ballot_length"%string; "gen_median_ballot_cost"%string; "gen_std_dev_project_cost"%string].
